@@ -164,6 +164,28 @@ pub struct ImplHandle {
     calls: AtomicU64,
 }
 
+/// Optional user-code-in-Drop behaviour of every implementation object (C16): the hook runs when an
+/// implementation is dropped, e.g. to create a further connection the way a plugin's Drop may talk
+/// to other plugins. Not re-entered from objects created by the hook itself.
+pub static IMPL_DROP_HOOK: std::sync::RwLock<Option<Box<dyn Fn() + Send + Sync>>> = std::sync::RwLock::new(None);
+thread_local! {
+    static IN_DROP_HOOK: std::cell::Cell<bool> = std::cell::Cell::new(false);
+}
+impl Drop for ImplHandle {
+    fn drop(&mut self) {
+        if IN_DROP_HOOK.with(|f| f.get()) {
+            return;
+        }
+        if let Ok(g) = IMPL_DROP_HOOK.read() {
+            if let Some(h) = &*g {
+                IN_DROP_HOOK.with(|f| f.set(true));
+                h();
+                IN_DROP_HOOK.with(|f| f.set(false));
+            }
+        }
+    }
+}
+
 pub struct Script {
     pub ret: DV,
     panic: Option<PanicSpec>,
